@@ -1,15 +1,356 @@
-(* UpdateProofs.v — property C17 on the model (Model/Update.v). *)
+(* UpdateProofs.v — property C17 on the model (Model/Update.v): a valid update_discretizer call
+   completes, keeps the order a consistent partition (C13's WF), has exactly the documented effect
+   on the groups, and leaves the state equal to the one BaseDiscretizer.fit() / load_discretizer
+   would build from the new order (so C04's transform theorems, and everything that is a function
+   of order + flags, apply after every edit) — for all states and, by induction, all finite
+   histories.  Witnesses (vm_compute) for the edits that are NOT coherent. *)
 From Coq Require Import Permutation Lia.
 From AC.Model Require Import Base GroupedList Labels Transform FormatRule Update.
 From AC.Proofs Require Import BaseLemmas GroupedListSpec GroupedListProofs TransformSpec
   LabelsProofs TransformProofs.
 
+(* ---- vocabulary -------------------------------------------------------------------------- *)
+
 (* the state BaseDiscretizer.fit() (hence load_discretizer) builds from the order and the flags *)
 Definition fitted (tables : list fmt_table) (st : state) : Prop := st = refresh tables st.
+
+(* a valid edit (on the CURRENT order): kept is never missing;
+   'group'   : kept is a leader; discarded (str_nan when missing) is a leader or unknown;
+   'replace' : discarded is a leader; kept is unknown or a member of discarded's group *)
+Definition valid_edit (st : state) (m : umode) (d k : val) : Prop :=
+  let g := st_order st in
+  let d' := eff_d st d in
+  k <> VNaN /\
+  match m with
+  | MGroup => In k (keys g) /\ (In d' (keys g) \/ ~ In d' (values g))
+  | MReplace => In d' (keys g) /\ (~ In k (values g) \/ In k (get g d'))
+  | MBad => False
+  end.
+
+(* the groups after a completed edit, in the reference model of C13 *)
+Definition expected_abs (m : umode) (g : gl) (d k : val) : spec :=
+  match m with
+  | MGroup => s_group (abs g ++ (if mem d (keys g) then [] else [(d, [d])])) d k
+  | MReplace =>
+      map (fun kv => if val_eqb d (fst kv)
+                     then (k, if mem k (snd kv) then snd kv else k :: snd kv) else kv) (abs g)
+  | MBad => abs g
+  end.
+
+(* ---- reference-model lemmas ----------------------------------------------------------------- *)
+
+Lemma dget_s_remove : forall d x (s : spec),
+  dget x (s_remove d s) = if val_eqb x d then None else dget x s.
+Proof.
+  intros d x s. unfold s_remove. induction s as [|[a v] t IH]; cbn [filter fst dget].
+  - destruct (val_eqb x d); reflexivity.
+  - veq d a; cbn [negb].
+    + subst a. rewrite IH. veq x d; [reflexivity|].
+      assert (E1 : val_eqb x d = false) by (apply val_eqb_neq; exact E). rewrite E1. reflexivity.
+    + cbn [dget]. rewrite IH. veq x a; [|reflexivity].
+      subst a. assert (E1 : val_eqb x d = false) by (apply val_eqb_neq; congruence).
+      rewrite E1. reflexivity.
+Qed.
+
+Lemma dget_map_app : forall k pre x (s : spec),
+  dget x (map (fun kv => if val_eqb k (fst kv) then (fst kv, pre ++ snd kv) else kv) s)
+  = if val_eqb x k then option_map (app pre) (dget x s) else dget x s.
+Proof.
+  intros k pre x s. induction s as [|[a v] t IH]; cbn [map fst snd].
+  - cbn [dget]. destruct (val_eqb x k); reflexivity.
+  - veq k a.
+    + subst a. cbn [dget]. veq x k; [reflexivity|]. exact IH.
+    + cbn [dget]. veq x a.
+      * subst a. assert (E1 : val_eqb x k = false) by (apply val_eqb_neq; congruence).
+        rewrite E1. reflexivity.
+      * exact IH.
+Qed.
+
+Lemma keys_s_group : forall (s : spec) d k, d <> k ->
+  map fst (s_group s d k) = filter (fun x => negb (val_eqb d x)) (map fst s).
+Proof.
+  intros s d k Hne. unfold s_group.
+  assert (E : val_eqb d k = false) by (apply val_eqb_neq; exact Hne). rewrite E.
+  rewrite map_map. unfold s_remove.
+  induction s as [|[a v] t IH]; cbn [filter map fst]; [reflexivity|].
+  destruct (val_eqb d a); cbn [negb map fst]; [exact IH|].
+  f_equal; [destruct (val_eqb k a); reflexivity | exact IH].
+Qed.
+
+Lemma members_s_group_kept : forall (s : spec) d k ck, d <> k -> dget k s = Some ck ->
+  s_members (s_group s d k) k = s_members s d ++ ck.
+Proof.
+  intros s d k ck Hne Hk. unfold s_group.
+  assert (E : val_eqb d k = false) by (apply val_eqb_neq; exact Hne). rewrite E.
+  unfold s_members at 1. rewrite dget_map_app, val_eqb_refl, dget_s_remove.
+  assert (E1 : val_eqb k d = false) by (apply val_eqb_neq; congruence).
+  rewrite E1, Hk. reflexivity.
+Qed.
+
+Lemma members_s_group_other : forall (s : spec) d k x, d <> k -> x <> k -> x <> d ->
+  s_members (s_group s d k) x = s_members s x.
+Proof.
+  intros s d k x Hne Hxk Hxd. unfold s_group.
+  assert (E : val_eqb d k = false) by (apply val_eqb_neq; exact Hne). rewrite E.
+  unfold s_members. rewrite dget_map_app, dget_s_remove.
+  assert (E1 : val_eqb x k = false) by (apply val_eqb_neq; exact Hxk).
+  assert (E2 : val_eqb x d = false) by (apply val_eqb_neq; exact Hxd).
+  rewrite E1, E2. reflexivity.
+Qed.
+
+Lemma members_s_group_discarded : forall (s : spec) d k, d <> k -> s_members (s_group s d k) d = [].
+Proof.
+  intros s d k Hne. unfold s_group.
+  assert (E : val_eqb d k = false) by (apply val_eqb_neq; exact Hne). rewrite E.
+  unfold s_members. rewrite dget_map_app, dget_s_remove, E, val_eqb_refl. reflexivity.
+Qed.
+
+Lemma dget_app_notin : forall k (s t : spec), ~ In k (map fst s) -> dget k (s ++ t) = dget k t.
+Proof.
+  intros k s t. induction s as [|[a v] r IH]; intro Hn; [reflexivity|].
+  cbn [app dget]. cbn [map fst] in Hn.
+  assert (E : val_eqb k a = false) by (apply val_eqb_neq; intro; subst; apply Hn; left; reflexivity).
+  rewrite E. apply IH. intro Hi. apply Hn. right. exact Hi.
+Qed.
+
+Lemma dget_app_in : forall k (s t : spec) v, dget k s = Some v -> dget k (s ++ t) = Some v.
+Proof.
+  intros k s t v. induction s as [|[a w] r IH]; intro H; [discriminate H|].
+  cbn [app dget] in *. destruct (val_eqb k a); [exact H | apply IH; exact H].
+Qed.
+
+Lemma dget_app_none : forall k (s t : spec), dget k s = None -> dget k (s ++ t) = dget k t.
+Proof.
+  intros k s t. induction s as [|[a w] r IH]; intro H; [reflexivity|].
+  cbn [app dget] in *. destruct (val_eqb k a); [discriminate H | apply IH; exact H].
+Qed.
+
+Lemma s_remove_notin : forall k (s : spec), ~ In k (map fst s) -> s_remove k s = s.
+Proof.
+  intros k s. unfold s_remove. induction s as [|[a v] r IH]; intro Hn; [reflexivity|].
+  cbn [filter fst]. cbn [map fst] in Hn.
+  assert (E : val_eqb k a = false) by (apply val_eqb_neq; intro; subst; apply Hn; left; reflexivity).
+  rewrite E. cbn [negb]. f_equal. apply IH. intro Hi. apply Hn. right. exact Hi.
+Qed.
+
+(* grouping a freshly appended singleton k into d : k is prepended to d's members *)
+Lemma s_group_fresh_into : forall (s : spec) k d, ~ In k (map fst s) -> k <> d ->
+  s_group (s ++ [(k, [k])]) k d
+  = map (fun kv => if val_eqb d (fst kv) then (fst kv, [k] ++ snd kv) else kv) s.
+Proof.
+  intros s k d Hn Hne. unfold s_group.
+  assert (E : val_eqb k d = false) by (apply val_eqb_neq; exact Hne). rewrite E.
+  assert (Hm : s_members (s ++ [(k, [k])]) k = [k]).
+  { unfold s_members. rewrite dget_app_notin by exact Hn. cbn [dget]. rewrite val_eqb_refl. reflexivity. }
+  rewrite Hm. f_equal. unfold s_remove. rewrite filter_app. cbn [filter fst].
+  rewrite val_eqb_refl. cbn [negb]. rewrite app_nil_r. apply s_remove_notin. exact Hn.
+Qed.
+
+(* ---- lookups on a well-formed order ---------------------------------------------------------- *)
+
+Lemma leader_in_values : forall g k, WF g -> In k (keys g) -> In k (values g).
+Proof. intros g k Hwf Hk. apply (In_get_values g k k). apply WF_key_get; assumption. Qed.
+
+Lemma contains_true : forall g v, In v (values g) -> contains g v = true.
+Proof. intros g v H. apply contains_spec. exact H. Qed.
+
+Lemma contains_false : forall g v, ~ In v (values g) -> contains g v = false.
+Proof.
+  intros g v H. destruct (contains g v) eqn:E; [|reflexivity].
+  apply contains_spec in E. contradiction.
+Qed.
+
+Lemma get_group_member : forall g l v, WF g -> In l (keys g) -> In v (get g l) -> get_group g v = l.
+Proof.
+  intros g l v Hwf Hl Hv. destruct (WF_key_dget g l Hwf Hl) as (vs & Hg & _).
+  rewrite (get_dget _ _ _ Hg) in Hv. apply (get_group_spec g l vs v Hwf); [apply dget_In; exact Hg | exact Hv].
+Qed.
+
+Lemma get_group_leader : forall g k, WF g -> In k (keys g) -> get_group g k = k.
+Proof. intros g k Hwf Hk. apply get_group_member; auto. apply WF_key_get; auto. Qed.
+
+Lemma get_group_unknown : forall g v, ~ In v (values g) -> get_group g v = v.
+Proof.
+  intros g v Hn. apply get_group_none. intros k vs Hi Hv. apply Hn.
+  apply In_dvalues. exists k, vs. split; assumption.
+Qed.
+
+Lemma abs_dget : forall g k, WF g -> In k (keys g) -> dget k (abs g) = Some (get g k).
+Proof.
+  intros g k Hwf Hk. unfold abs. rewrite dget_map.
+  assert (E : mem k (keys g) = true) by (apply mem_In; exact Hk). rewrite E. reflexivity.
+Qed.
+
+(* ---- the order part of an edit ---------------------------------------------------------------- *)
+
+Lemma edit_order_group : forall g d k, WF g -> In k (keys g) -> d <> k ->
+  (In d (keys g) \/ ~ In d (values g)) ->
+  exists g', edit_order g MGroup d k = (g', UDone) /\ WF g' /\ abs g' = expected_abs MGroup g d k.
+Proof.
+  intros g d k Hwf Hk Hne Hd. unfold edit_order, ensure, expected_abs.
+  rewrite (contains_true g k) by (apply leader_in_values; auto).
+  destruct Hd as [Hd|Hd].
+  - rewrite (contains_true g d) by (apply leader_in_values; auto).
+    destruct (group_spec g d k Hwf Hne Hd Hk) as (g' & H1 & H2 & _ & H3 & _).
+    exists g'. rewrite H1. cbn [gl_try]. split; [reflexivity|]. split; [exact H2|].
+    assert (E : mem d (keys g) = true) by (apply mem_In; exact Hd).
+    rewrite E, app_nil_r. exact H3.
+  - rewrite (contains_false g d Hd).
+    destruct (append_spec g d Hwf Hd) as (Hw1 & Ha1 & _).
+    assert (Hdk : In d (keys (append g d)))
+      by (unfold append; cbn [keys]; apply in_or_app; right; left; reflexivity).
+    assert (Hkk : In k (keys (append g d)))
+      by (unfold append; cbn [keys]; apply in_or_app; left; exact Hk).
+    destruct (group_spec (append g d) d k Hw1 Hne Hdk Hkk) as (g' & H1 & H2 & _ & H3 & _).
+    exists g'. rewrite H1. cbn [gl_try]. split; [reflexivity|]. split; [exact H2|].
+    assert (E : mem d (keys g) = false).
+    { apply mem_false. intro Hi. apply Hd. apply leader_in_values; auto. }
+    rewrite E, <- Ha1. exact H3.
+Qed.
+
+Lemma edit_order_replace_member : forall g d k, WF g -> In d (keys g) -> In k (get g d) ->
+  k <> d -> d <> VNaN ->
+  exists g', edit_order g MReplace d k = (g', UDone) /\ WF g' /\ abs g' = expected_abs MReplace g d k.
+Proof.
+  intros g d k Hwf Hd Hk Hne Hnan. unfold edit_order, ensure, expected_abs.
+  rewrite (contains_true g k) by (apply (In_get_values g d k); exact Hk).
+  rewrite (get_group_member g d k Hwf Hd Hk).
+  assert (Ep : py_eq d d = true) by (rewrite py_eq_notnan by exact Hnan; apply val_eqb_refl).
+  rewrite Ep. rewrite (get_group_member g d k Hwf Hd Hk), Ep.
+  destruct (replace_leader_spec g d k Hwf Hd Hk) as (g' & H1 & H2 & H3 & _).
+  exists g'. rewrite H1. cbn [gl_try]. split; [reflexivity|]. split; [exact H2|].
+  rewrite H3. cbn [s_step]. unfold abs. rewrite !map_map. apply map_ext_in.
+  intros x Hx. cbn [fst snd]. veq d x; [|reflexivity].
+  subst x. assert (E : mem k (get g d) = true) by (apply mem_In; exact Hk). rewrite E. reflexivity.
+Qed.
+
+Lemma edit_order_replace_fresh : forall g d k, WF g -> In d (keys g) -> ~ In k (values g) ->
+  d <> VNaN ->
+  exists g', edit_order g MReplace d k = (g', UDone) /\ WF g' /\ abs g' = expected_abs MReplace g d k.
+Proof.
+  intros g d k Hwf Hd Hk Hnan. unfold edit_order, ensure, expected_abs.
+  assert (Hne : k <> d) by (intro; subst k; apply Hk; apply leader_in_values; auto).
+  rewrite (contains_false g k Hk).
+  destruct (append_spec g k Hwf Hk) as (Hw1 & Ha1 & _).
+  set (g1 := append g k) in *.
+  assert (Hk1 : In k (keys g1)) by (unfold g1, append; cbn [keys]; apply in_or_app; right; left; reflexivity).
+  assert (Hd1 : In d (keys g1)) by (unfold g1, append; cbn [keys]; apply in_or_app; left; exact Hd).
+  rewrite (get_group_leader g1 k Hw1 Hk1).
+  assert (Ep1 : py_eq k d = false).
+  { destruct (py_eq k d) eqn:E; [|reflexivity]. apply py_eq_true in E. contradiction. }
+  rewrite Ep1.
+  destruct (group_spec g1 k d Hw1 Hne Hk1 Hd1) as (g2 & H1 & Hw2 & Hkeys2 & Ha2 & _).
+  rewrite H1.
+  assert (Hnk : ~ In k (map fst (abs g))).
+  { rewrite abs_keys. intro Hi. apply Hk. apply leader_in_values; auto. }
+  assert (Ha2' : abs g2 = map (fun kv => if val_eqb d (fst kv) then (fst kv, [k] ++ snd kv) else kv) (abs g)).
+  { rewrite Ha2, Ha1. apply s_group_fresh_into; assumption. }
+  assert (Hd2 : In d (keys g2)).
+  { rewrite Hkeys2. apply In_filter_neq. split; [exact Hd1 | congruence]. }
+  assert (Hget2 : get g2 d = [k] ++ get g d).
+  { rewrite (get_abs g2 d Hw2). unfold s_members. rewrite Ha2', dget_map_app, val_eqb_refl.
+    rewrite (abs_dget g d Hwf Hd). reflexivity. }
+  assert (Hkin : In k (get g2 d)) by (rewrite Hget2; left; reflexivity).
+  rewrite (get_group_member g2 d k Hw2 Hd2 Hkin).
+  assert (Ep : py_eq d d = true) by (rewrite py_eq_notnan by exact Hnan; apply val_eqb_refl).
+  rewrite Ep.
+  destruct (replace_leader_spec g2 d k Hw2 Hd2 Hkin) as (g3 & H3 & Hw3 & Ha3 & _).
+  exists g3. rewrite H3. cbn [gl_try]. split; [reflexivity|]. split; [exact Hw3|].
+  rewrite Ha3. cbn [s_step]. rewrite Ha2'. unfold abs. rewrite !map_map. apply map_ext_in.
+  intros x Hx. cbn [fst snd]. veq d x.
+  - subst x. cbn [fst snd]. rewrite val_eqb_refl.
+    assert (E : mem k (get g d) = false).
+    { apply mem_false. intro Hi. apply Hk. apply (In_get_values g d k). exact Hi. }
+    rewrite E. reflexivity.
+  - cbn [fst]. assert (E1 : val_eqb d x = false) by (apply val_eqb_neq; exact E). rewrite E1. reflexivity.
+Qed.
+
+(* ---- update_discretizer ------------------------------------------------------------------------ *)
+
+Lemma eff_d_not_nan : forall st d, st_nan st <> VNaN -> eff_d st d <> VNaN.
+Proof. intros st d H. unfold eff_d. destruct d; cbn [is_nan]; congruence. Qed.
+
+Definition after_nan_test (st : state) (d : val) : state :=
+  if is_nan d then set_dropna st true else st.
+
+Lemma order_after_nan_test : forall st d, st_order (after_nan_test st d) = st_order st.
+Proof. intros st d. unfold after_nan_test. destruct (is_nan d); reflexivity. Qed.
+
+Lemma update_unfold : forall tables st m d k, m <> MBad -> k <> VNaN ->
+  update tables st m d k =
+  if py_eq (get_group (st_order st) (eff_d st d)) k then (after_nan_test st d, UWarn)
+  else match edit_order (st_order st) m (eff_d st d) k with
+       | (g', UDone) => (refresh tables (set_order (after_nan_test st d) g'), UDone)
+       | (g', oc) => (set_order (after_nan_test st d) g', oc)
+       end.
+Proof.
+  intros tables st m d k Hm Hk. unfold update, eff_d, after_nan_test.
+  assert (Ek : is_nan k = false) by (destruct k; try reflexivity; congruence).
+  destruct m; [| |congruence]; rewrite Ek; destruct (is_nan d); reflexivity.
+Qed.
+
+(* a valid edit either is a no-op with a warning (discarded already in kept's group) or completes
+   with exactly the expected groups, on a well-formed order *)
+Theorem update_valid : forall tables st m d k,
+  WF (st_order st) -> st_nan st <> VNaN -> valid_edit st m d k ->
+  (get_group (st_order st) (eff_d st d) = k /\
+   update tables st m d k = (after_nan_test st d, UWarn))
+  \/
+  (get_group (st_order st) (eff_d st d) <> k /\
+   exists g', WF g' /\ abs g' = expected_abs m (st_order st) (eff_d st d) k /\
+     update tables st m d k = (refresh tables (set_order (after_nan_test st d) g'), UDone)).
+Proof.
+  intros tables st m d k Hwf Hnan (Hk & Hv).
+  assert (Hm : m <> MBad) by (intro; subst m; exact Hv).
+  rewrite (update_unfold tables st m d k Hm Hk).
+  pose proof (eff_d_not_nan st d Hnan) as Hd'.
+  set (d' := eff_d st d) in *. set (g := st_order st) in *.
+  destruct (val_eq_dec (get_group g d') k) as [E|E].
+  - left. split; [exact E|]. rewrite E.
+    assert (Ep : py_eq k k = true) by (rewrite py_eq_notnan by exact Hk; apply val_eqb_refl).
+    rewrite Ep. reflexivity.
+  - right. split; [exact E|].
+    assert (Ep : py_eq (get_group g d') k = false).
+    { destruct (py_eq (get_group g d') k) eqn:Ep; [|reflexivity]. apply py_eq_true in Ep. contradiction. }
+    rewrite Ep.
+    destruct m; [| |contradiction].
+    + destruct Hv as [Hkk Hd].
+      assert (Hne : d' <> k).
+      { intro; subst k. apply E. apply get_group_leader; assumption. }
+      destruct (edit_order_group g d' k Hwf Hkk Hne Hd) as (g' & H1 & H2 & H3).
+      exists g'. rewrite H1. auto.
+    + destruct Hv as [Hd [Hkf|Hkm]].
+      * destruct (edit_order_replace_fresh g d' k Hwf Hd Hkf Hd') as (g' & H1 & H2 & H3).
+        exists g'. rewrite H1. auto.
+      * assert (Hne : k <> d').
+        { intro; subst k. apply E. apply get_group_leader; assumption. }
+        destruct (edit_order_replace_member g d' k Hwf Hd Hkm Hne Hd') as (g' & H1 & H2 & H3).
+        exists g'. rewrite H1. auto.
+Qed.
+
+(* fields an edit never touches *)
+Lemma update_fields : forall tables st m d k,
+  let st' := fst (update tables st m d k) in
+  st_kind st' = st_kind st /\ st_nan st' = st_nan st /\ st_default st' = st_default st /\
+  st_odt st' = st_odt st /\ (st_dropna st' = st_dropna st \/ (d = VNaN /\ st_dropna st' = true)).
+Proof.
+  intros tables st m d k. unfold update.
+  assert (Hn : forall b, (if is_nan d then b else st_dropna st) = st_dropna st \/ (d = VNaN /\ (if is_nan d then b else st_dropna st) = b)).
+  { intro b. destruct d; cbn [is_nan]; auto. }
+  destruct m; cbn [fst]; auto;
+    destruct (is_nan k); cbn [fst];
+    try match goal with |- context [py_eq ?a ?b] => destruct (py_eq a b) end; cbn [fst];
+    try match goal with |- context [edit_order ?a ?b ?c ?e] => destruct (edit_order a b c e) as [g' []] end;
+    cbn [fst]; destruct d; cbn [is_nan st_kind st_nan st_default st_odt st_dropna refresh
+                                  fitted_state_auto fitted_state set_order set_dropna];
+    repeat split; auto.
+Qed.
 
 Lemma refresh_idem : forall tables st, refresh tables (refresh tables st) = refresh tables st.
 Proof. intros tables [k g n d dr o l]. reflexivity. Qed.
 
+(* label refresh: whenever a call completes, the state is the freshly fitted state of the new
+   order — for EVERY call, valid or not *)
 Theorem labels_refresh_consistent : forall tables st m d k,
   snd (update tables st m d k) = UDone -> fitted tables (fst (update tables st m d k)).
 Proof.
@@ -20,4 +361,132 @@ Proof.
     cbn [fst snd]; try discriminate;
     match goal with |- context [edit_order ?a ?b ?c ?e] => destruct (edit_order a b c e) as [g' []] end;
     cbn [fst snd]; try discriminate; intros _; symmetry; apply refresh_idem.
+Qed.
+
+Lemma fitted_after_nan_test : forall tables st d, fitted tables st -> fitted tables (after_nan_test st d).
+Proof.
+  intros tables [k g n df dr o l] d H. unfold after_nan_test. destruct (is_nan d); [|exact H].
+  unfold fitted, refresh, fitted_state_auto, fitted_state, set_dropna in *.
+  cbn [st_kind st_order st_nan st_default st_dropna st_odt st_lpv] in *.
+  injection H as Hl. rewrite <- Hl. reflexivity.
+Qed.
+
+(* a fitted state with a well-formed order is `coherent` (premise of the C04 theorems) *)
+Lemma fitted_coherent : forall tables st, WF (st_order st) -> fitted tables st ->
+  coherent (fmt_of tables (st_nan st) (st_order st)) st.
+Proof.
+  intros tables st Hwf Hf. split; [exact Hwf|]. rewrite Hf at 1. reflexivity.
+Qed.
+
+(* valid edit: completes (or warns), order stays well-formed, state stays fitted *)
+Theorem update_preserves_wf : forall tables st m d k,
+  WF (st_order st) -> st_nan st <> VNaN -> valid_edit st m d k ->
+  (snd (update tables st m d k) = UDone \/ snd (update tables st m d k) = UWarn) /\
+  WF (st_order (fst (update tables st m d k))) /\
+  (fitted tables st -> fitted tables (fst (update tables st m d k))).
+Proof.
+  intros tables st m d k Hwf Hnan Hv.
+  destruct (update_valid tables st m d k Hwf Hnan Hv) as [[_ H]|[_ (g' & Hw & _ & H)]]; rewrite H; cbn [fst snd].
+  - split; [right; reflexivity|]. split; [rewrite order_after_nan_test; exact Hwf|].
+    apply fitted_after_nan_test.
+  - split; [left; reflexivity|]. split; [exact Hw|].
+    intros _. unfold fitted. symmetry. apply refresh_idem.
+Qed.
+
+(* 'group': every member of the discarded group (or the new modality / the missing value) joins
+   the kept group, every other group is unchanged, the discarded leader disappears *)
+Theorem update_group_effect : forall tables st d k,
+  WF (st_order st) -> st_nan st <> VNaN -> valid_edit st MGroup d k ->
+  let g := st_order st in
+  let d' := eff_d st d in
+  let g' := st_order (fst (update tables st MGroup d k)) in
+  get_group g d' <> k ->
+  snd (update tables st MGroup d k) = UDone /\
+  abs g' = expected_abs MGroup g d' k /\
+  keys g' = filter (fun x => negb (val_eqb d' x)) (keys g) /\
+  get g' k = (if mem d' (keys g) then get g d' else [d']) ++ get g k /\
+  (forall x, x <> k -> x <> d' -> get g' x = get g x).
+Proof.
+  intros tables st d k Hwf Hnan Hv g d' g' Hne.
+  destruct (update_valid tables st MGroup d k Hwf Hnan Hv) as [[H _]|[_ (g1 & Hw & Ha & H)]];
+    [contradiction|].
+  unfold g'. rewrite H. cbn [fst snd st_order refresh fitted_state_auto fitted_state set_order].
+  destruct Hv as (Hk & Hkk & Hd). fold g d' in Hkk, Hd, Ha.
+  assert (Hdk : d' <> k).
+  { intro; subst k. apply Hne. apply get_group_leader; assumption. }
+  set (s := abs g ++ (if mem d' (keys g) then [] else [(d', [d'])])) in *.
+  cbn [expected_abs] in Ha. fold s in Ha.
+  assert (Hks : dget k s = Some (get g k)).
+  { unfold s. apply dget_app_in. apply abs_dget; assumption. }
+  assert (Hds : s_members s d' = if mem d' (keys g) then get g d' else [d']).
+  { unfold s, s_members. destruct (mem d' (keys g)) eqn:E.
+    - rewrite app_nil_r. apply mem_In in E. rewrite (abs_dget g d' Hwf E). reflexivity.
+    - rewrite dget_app_notin by (rewrite abs_keys; apply mem_false; exact E).
+      cbn [dget]. rewrite val_eqb_refl. reflexivity. }
+  split; [reflexivity|]. split; [exact Ha|]. split; [|split].
+  - rewrite <- (abs_keys g1), Ha, (keys_s_group s d' k Hdk). unfold s. rewrite map_app, filter_app, abs_keys.
+    destruct (mem d' (keys g)) eqn:E; cbn [map filter fst]; [apply app_nil_r|].
+    rewrite val_eqb_refl. cbn [negb]. apply app_nil_r.
+  - rewrite (get_abs g1 k Hw), Ha, (members_s_group_kept s d' k (get g k) Hdk Hks), Hds. reflexivity.
+  - intros x Hxk Hxd. rewrite (get_abs g1 x Hw), Ha, (members_s_group_other s d' k x Hdk Hxk Hxd).
+    unfold s, s_members. destruct (mem d' (keys g)) eqn:E.
+    + rewrite app_nil_r. symmetry. apply get_abs. exact Hwf.
+    + destruct (dget x (abs g)) as [v|] eqn:Ex.
+      * rewrite (dget_app_in x (abs g) _ v Ex). rewrite (get_abs g x Hwf). unfold s_members. rewrite Ex. reflexivity.
+      * rewrite (dget_app_none x (abs g) _ Ex). cbn [dget].
+        assert (E1 : val_eqb x d' = false) by (apply val_eqb_neq; exact Hxd). rewrite E1.
+        rewrite (get_abs g x Hwf). unfold s_members. rewrite Ex. reflexivity.
+Qed.
+
+(* 'replace' only renames: same groups in the same positions, the leader d is now k (k itself
+   joins the group when it was unknown) *)
+Theorem update_replace_only_renames : forall tables st d k,
+  WF (st_order st) -> st_nan st <> VNaN -> valid_edit st MReplace d k ->
+  let g := st_order st in
+  let d' := eff_d st d in
+  let g' := st_order (fst (update tables st MReplace d k)) in
+  k <> d' ->
+  snd (update tables st MReplace d k) = UDone /\
+  abs g' = map (fun kv => if val_eqb d' (fst kv)
+                          then (k, if mem k (snd kv) then snd kv else k :: snd kv) else kv) (abs g) /\
+  keys g' = map (fun x => if val_eqb d' x then k else x) (keys g).
+Proof.
+  intros tables st d k Hwf Hnan Hv g d' g' Hne.
+  destruct (update_valid tables st MReplace d k Hwf Hnan Hv) as [[H _]|[_ (g1 & Hw & Ha & H)]].
+  - exfalso. destruct Hv as (_ & Hd & _). apply Hne. rewrite <- H. symmetry.
+    apply get_group_leader; assumption.
+  - unfold g'. rewrite H. cbn [fst snd st_order refresh fitted_state_auto fitted_state set_order].
+    split; [reflexivity|]. split; [exact Ha|].
+    rewrite <- (abs_keys g1), Ha. cbn [expected_abs]. unfold abs. rewrite !map_map.
+    apply map_ext. intro x. cbn [fst]. destruct (val_eqb (eff_d st d) x); reflexivity.
+Qed.
+
+(* ---- histories ----------------------------------------------------------------------------------- *)
+
+Fixpoint valid_history (tables : list fmt_table) (st : state) (es : list edit) : Prop :=
+  match es with
+  | [] => True
+  | e :: t => valid_edit st (e_mode e) (e_d e) (e_k e) /\
+              valid_history tables (fst (update tables st (e_mode e) (e_d e) (e_k e))) t
+  end.
+
+Definition good (tables : list fmt_table) (r : state * outcome) : Prop :=
+  (snd r = UDone \/ snd r = UWarn) /\ WF (st_order (fst r)) /\ fitted tables (fst r).
+
+Theorem update_every_history : forall tables es st,
+  WF (st_order st) -> st_nan st <> VNaN -> fitted tables st -> valid_history tables st es ->
+  Forall (good tables) (run_edits tables st es) /\
+  WF (st_order (final_state tables st es)) /\ fitted tables (final_state tables st es).
+Proof.
+  intros tables es. induction es as [|e t IH]; intros st Hwf Hnan Hf Hv.
+  - cbn [run_edits final_state]. split; [constructor|]. split; assumption.
+  - destruct Hv as [Hv Hrest]. cbn [run_edits final_state].
+    destruct (update_preserves_wf tables st (e_mode e) (e_d e) (e_k e) Hwf Hnan Hv) as (Ho & Hw' & Hf').
+    pose proof (update_fields tables st (e_mode e) (e_d e) (e_k e)) as (_ & Hn' & _).
+    cbv zeta in Hn'.
+    assert (Hnan' : st_nan (fst (update tables st (e_mode e) (e_d e) (e_k e))) <> VNaN)
+      by (rewrite Hn'; exact Hnan).
+    destruct (IH _ Hw' Hnan' (Hf' Hf) Hrest) as (H1 & H2 & H3).
+    split; [|split; assumption].
+    constructor; [|exact H1]. split; [exact Ho|]. split; [exact Hw' | exact (Hf' Hf)].
 Qed.
